@@ -194,8 +194,14 @@ impl FatVolume {
                 if let Some(count) = self.free_clusters_count {
                     block[488..492].copy_from_slice(&count.to_le_bytes());
                 }
-                if let Some(next_free_cluster) = self.next_free_cluster {
-                    block[492..496].copy_from_slice(&next_free_cluster.0.to_le_bytes());
+                match self.next_free_cluster {
+                    Some(next_free_cluster) => {
+                        block[492..496].copy_from_slice(&next_free_cluster.0.to_le_bytes());
+                    }
+                    None => {
+                        // Don't leave a hint we decided not to trust on the disk
+                        block[492..496].copy_from_slice(&0xFFFF_FFFFu32.to_le_bytes());
+                    }
                 }
                 trace!("Writing info sector");
                 block_cache.write_back()?;
